@@ -384,6 +384,50 @@ def check_program(exe, pid, seed, n, workdir):
     return {'ok': True, 'args': args, 'checks': len(checks)}
 
 
+
+# ---- programs that must STOP with the documented error (one program each: the process ends at the error)
+ZDE = 'ZeroDivisionError: float division by zero'
+ERROR_CASES = {
+    'C04': [
+        ('    println(7 // d)\n', ZDE), ('    println(x % z)\n', ZDE), ('    println(7 / d)\n', ZDE), ('    7 // d\n', ZDE),
+        ('    mut q: int = 7\n    q //= d\n    println(q)\n', ZDE), ('    println(int(7 / d))\n', ZDE),
+        ('    println(it.qty % d)\n', ZDE), ('    println(x // d)\n', ZDE), ('    mut w: float = 1.5\n    w %= z\n    println(w)\n', ZDE),
+        ('    println(half(7) % (d * 3))\n', ZDE),
+    ],
+    'C05': [
+        ('    println(xs[i])\n', 'IndexError: index 7 out of range for list of length 3'),
+        ('    println(xs[-4])\n', 'IndexError: index -4 out of range for list of length 3'),
+        ('    println(s[9])\n', 'IndexError: string index out of range'),
+        ('    println(s[::k])\n', 'ValueError: slice step cannot be zero'),
+        ('    for v in xs[::k]:\n        println(v)\n', 'ValueError: slice step cannot be zero'),
+        ('    println(it.tags[9])\n', 'IndexError: index 9 out of range for list of length 4'),
+        ('    println(mk()[-7])\n', 'IndexError: index -7 out of range for list of length 6'),
+        ('    for q in range(1, 5, k):\n        println(q)\n', 'ValueError: range() arg 3 must not be zero'),
+        ('    mut ys: List[int] = [1, 2, 3]\n    ys[i] = 5\n    println(ys[0])\n', 'IndexError: index 7 out of range for list of length 3'),
+        ('    println(it.name[-6])\n', 'IndexError: string index out of range'),
+    ],
+}
+
+
+def error_program(pid, n):
+    body, want = ERROR_CASES[pid][n % len(ERROR_CASES[pid])]
+    src = (PRELUDE + 'def main() -> None:\n    it = Item(qty=3, price=2.5, tags=[7, 1, 9, 4], name="héllo")\n    xs: List[int] = [1, 2, 3]\n    s: str = "héllo"\n'
+           '    d: int = 0\n    z: float = 0.0\n    x: float = 1.5\n    i: int = 7\n    k: int = 0\n    println("#before")\n' + body + '    println("#after")\n')
+    return src, want
+
+
+def check_error_program(exe, pid, n, workdir):
+    src, want = error_program(pid, n)
+    rc, out, err = run_program(exe, src, workdir)
+    shutil.rmtree(os.path.join(workdir, 'target'), ignore_errors=True)
+    args = {'property': pid, 'error_case': n % len(ERROR_CASES[pid])}
+    ok = rc not in (0, 3) and '#before' in out and '#after' not in out and want in err
+    if ok:
+        return {'ok': True, 'args': args, 'checks': 1}
+    seen = [l for l in err.split('\n') if 'Error' in l or 'panicked' in l or 'error' in l][-6:]
+    return {'ok': False, 'args': args, 'observed': {'exit_code': rc, 'stdout': out[-300:], 'error_lines': seen}, 'expected': {'stops after "#before" with': want},
+            'what': 'the compiled program stops with the documented error text (and only there)', 'source': src, 'checks': 1}
+
 def run(pid, exe, build_dir, programs, n, base_seed=0):
     """returns (total value checks, first failing verdict or None)"""
     total = 0
@@ -392,6 +436,14 @@ def run(pid, exe, build_dir, programs, n, base_seed=0):
         total += v.get('checks', 0)
         if not v['ok']:
             return total, v
+    # error behaviour: one case per quick run (rotating with the seed), all of them in a thorough run
+    if pid in ERROR_CASES:
+        cases = range(len(ERROR_CASES[pid])) if programs > 1 else [base_seed // 100 + int(os.environ.get('VERIF_ERRCASE', '0'))]
+        for c in cases:
+            v = check_error_program(exe, pid, c, os.path.join(build_dir, f'diffrun_{pid}_err'))
+            total += 1
+            if not v['ok']:
+                return total, v
     return total, None
 
 
